@@ -57,6 +57,9 @@ pub fn diff_pair(uni: &Universe, x: &dyn Subj, y: &dyn Subj, writer: &str, acc: 
         for method in uni.all_methods() {
             for &line in &uni.lines {
                 for file in [None, Some("F.java")] {
+                    if file.is_some() && line > 200 {
+                        continue;
+                    }
                     x.remap_frame(class, method, line, file, None, &mut a);
                     y.remap_frame(class, method, line, file, None, &mut b);
                     acc.observations += 1;
@@ -185,7 +188,7 @@ pub fn run(tier: Tier) -> i32 {
         Box::new(ms_a(2, t)),
         Box::new(ms_a_large(1)),
         Box::new(ms_b(if t { 5 } else { 4 }, true)),
-        Box::new(ms_b(if t { 6 } else { 5 }, false)),
+        Box::new(ms_b(if t { 6 } else { 4 }, false)),
         Box::new(ms_c()),
         Box::new(ms_d(t)),
     ];
